@@ -217,8 +217,12 @@ def evaluate(c, upto=None):
 
 
 def hist_units(tier):
-    depth = 2 if tier == "quick" else 3
-    out = [{"stage": "hist", "first": i, "depth": depth} for i in range(len(ALPHA))]
+    depth = 2 if tier == "quick" else 4
+    if depth == 4:      # split the depth-4 histories by their first two operations
+        out = [{"stage": "hist", "first": i, "second": j, "depth": depth} for i in range(len(ALPHA)) for j in range(len(ALPHA))]
+        out += [{"stage": "hist", "first": i, "depth": 1} for i in range(len(ALPHA))]
+    else:
+        out = [{"stage": "hist", "first": i, "depth": depth} for i in range(len(ALPHA))]
     out.append({"stage": "hist", "first": None, "depth": 0})
     out.append({"stage": "bfs", "depth": 3 if tier == "quick" else 4})
     return out
@@ -242,6 +246,8 @@ def run_hist_unit(unit, acc):
         return
     if unit["first"] is None:
         hists = [()]
+    elif "second" in unit:
+        hists = [(unit["first"], unit["second"]) + rest for d in range(unit["depth"] - 1) for rest in itertools.product(range(len(ALPHA)), repeat=d)]
     else:
         hists = [(unit["first"],) + rest for d in range(unit["depth"]) for rest in itertools.product(range(len(ALPHA)), repeat=d)]
     for h in hists:
@@ -499,8 +505,8 @@ def describe(tier, seed):
                 "every operation equals its result on a fresh model. Registry: %d graph utilities on every PDAG p<=3 (int and float) and weighted DAG, for every node / "
                 "ordered pair / node subset argument, plus split_data, generators, noise, class constructors and methods, semi (stand-in backend): arguments byte-identical "
                 "afterwards, np.shares_memory(result, argument/model) false, writing 777 into results changes nothing. non-trivial: non-empty history / non-empty graph" % (
-                    len(ALPHA), 2 if tier == "quick" else 3, 3 if tier == "quick" else 4, sum(len(x) for x in graph_functions()) + 12),
+                    len(ALPHA), 2 if tier == "quick" else 4, 3 if tier == "quick" else 4, sum(len(x) for x in graph_functions()) + 12),
         "exhaustive": True,
-        "bounds": {"history_depth_no_dedup": 2 if tier == "quick" else 3, "bfs_depth": 3 if tier == "quick" else 4, "registry_p": 3},
+        "bounds": {"history_depth_no_dedup": 2 if tier == "quick" else 4, "bfs_depth": 3 if tier == "quick" else 4, "registry_p": 3},
         "assumptions": ["the documented out= buffer of cartesian is excepted", "one representative model per class (p = 3)"],
     }
